@@ -359,3 +359,51 @@ def option_sweep(tier, seed):
 @replayer('C20', 'advertising-options-at-their-boundaries')
 def _replay_options(f):
     return option_case(f['input']['argv']) is None
+
+
+# ---------------------------------------------------------------------------------------------------------------------
+# "and withdraws its routes on exit": whatever ends the loop -- ^C or an exception while the CHECK runs (not only during
+# the sleep between two checks) -- the last lines written withdraw every address
+def interrupted_case(kind, at):
+    from exabgp.application import healthcheck
+
+    history = [True, True, True, True]
+    options = argparse.Namespace(**{**DEFAULTS, 'rise': 1, 'fall': 1})
+    out = StringIO()
+    calls = []
+
+    def scripted_check(cmd, timeout):
+        calls.append(1)
+        if len(calls) - 1 == at:
+            raise (KeyboardInterrupt() if kind == 'interrupt' else BlockingIOError(11, 'fork: resource temporarily unavailable'))
+        return history[len(calls) - 1]
+
+    def scripted_sleep(seconds):
+        if len(calls) >= len(history):
+            raise KeyboardInterrupt
+
+    inp = {'ends_with': kind, 'during_check_number': at}
+    with patch.object(sys, 'stdout', out), patch('signal.signal'), patch.object(healthcheck, 'check', scripted_check), patch.object(healthcheck.time, 'sleep', scripted_sleep):
+        try:
+            healthcheck.loop(options)
+        except KeyboardInterrupt:
+            return {'what': '^C while the check command runs leaves loop() as an exception: nothing is withdrawn', 'input': inp, 'written': out.getvalue().split('\n')[-4:]}
+        except BlockingIOError:
+            pass  # main() logs it and exits 1 -- after the withdraw
+    lines = [ln for ln in out.getvalue().split('\n') if ln]
+    last = lines[-len(options.ips) :]
+    if at > 0 and (len(last) != len(options.ips) or not all(' withdraw route ' in ln for ln in last)):
+        return {'what': f'the loop ended ({kind} during check {at}) and the last lines written do not withdraw every address', 'input': inp, 'last_lines': last}
+    return None
+
+
+@bounded('C20', 'ended-while-checking')
+def ended_while_checking(tier, seed):
+    cases = [(k, at) for k in ('interrupt', 'exception') for at in (1, 2, 3)]
+    fails = [f for f in (interrupted_case(*c) for c in cases) if f]
+    return {'evaluations': len(cases), 'distinct_nontrivial': len(cases), 'exhaustive': True, 'bound': '^C or an exception (fork failure) raised by the check command of round 2, 3 or 4 of an up service (rise 1): the last lines written withdraw both addresses', 'rule': 'one case = (what ends the loop, round)', 'samples': [{'ends_with': 'interrupt', 'during_check_number': 1}], 'failures': fails}
+
+
+@replayer('C20', 'ended-while-checking')
+def _replay_ended(f):
+    return interrupted_case(f['input']['ends_with'], f['input']['during_check_number']) is None
